@@ -414,6 +414,16 @@ def path_condition(ctx, f, stmt: ast.AST):
                             out.append((ctx.X.value_at(f, prev.test), True))
                 if isinstance(cur, ast.If):
                     out.append((ctx.X.value_at(f, cur.test), fld == "body"))
+                if isinstance(cur, ast.For) and fld == "body":
+                    # a loop over a filtered comprehension: its `if` holds for every element the body sees
+                    from .terms import _retag, comp_loop_ids
+
+                    it = ctx.X.at(f, cur.iter)
+                    if it[0] == "comp" and it[1] in ("list", "gen", "set") and len(it[3]) == 1 and it[3][0][2]:
+                        ids = comp_loop_ids(it)
+                        if len(ids) == 1:
+                            for c_ in it[3][0][2]:
+                                out.append((_retag(c_, next(iter(ids)), cur.lineno), True))
         if cur is f.node or isinstance(cur, (ast.FunctionDef, ast.AsyncFunctionDef, ast.Lambda, ast.ClassDef)):
             break
         child, cur = cur, parent(cur)
